@@ -172,10 +172,17 @@ deriving Repr, Inhabited
 
 abbrev Rels := List Rel
 
+def relTypeTransitional : Str := S!"http://schemas.openxmlformats.org/officeDocument/2006/relationships/"
+def relTypeStrict : Str := S!"http://purl.oclc.org/ooxml/officeDocument/relationships/"
+
+/-- `_normalise_type`: a relationship type of Strict Open XML is read as its transitional equivalent -/
+def normRelType (ty : Str) : Str :=
+  if startsWith ty relTypeStrict then relTypeTransitional ++ ty.drop relTypeStrict.length else ty
+
 def readRelsXml (rootChildren : List XmlNode) : Except Err Rels :=
   (findChildren S!"relationships:Relationship" rootChildren).mapM fun (as, _) =>
     match attr? S!"Id" as, attr? S!"Target" as, attr? S!"Type" as with
-    | some i, some t, some ty => .ok ⟨i, t, ty⟩
+    | some i, some t, some ty => .ok ⟨i, t, normRelType ty⟩
     | _, _, _ => .error (.key S!"Id/Target/Type")
 
 def Rels.targetById (rs : Rels) (id : Str) : Except Err Str :=
